@@ -485,3 +485,1053 @@ Definition ex9_checkp : bool :=
 
 Lemma ex9_checkp_ok : ex9_checkp = true.
 Proof. vm_compute. reflexivity. Qed.
+
+(* ------------------------------------------------------------------ partial views and proofToPath *)
+
+Section Paths.
+  Variable H : list N -> list N.
+  Hypothesis H_len : forall x, length (H x) = 32%nat.
+  Variable db : pdb.
+  (* the database answers the hash of an encoding in [P] only with that encoding *)
+  Variable P : list N -> Prop.
+  Hypothesis faithful : forall e b, P e -> db_get db (H e) = Some b -> b = e.
+
+  (* [pv p t]: [p] is the true (sub)trie [t] with some hashed subtries left as
+     hash references — the shape of the tree proofToPath builds *)
+  Inductive pv : node -> node -> Prop :=
+  | pv_empty : pv NEmpty NEmpty
+  | pv_value v : pv (NValue v) (NValue v)
+  | pv_hash t e : pwf t -> node_enc H t = Some e -> (32 <= length e)%nat -> pv (NHash (H e)) t
+  | pv_short k c c' : pv c c' -> pv (NShort k c) (NShort k c')
+  | pv_full cs cs' : length cs = length cs' ->
+      (forall i c c', nth_error cs i = Some c -> nth_error cs' i = Some c' -> pv c c') ->
+      pv (NFull cs) (NFull cs').
+
+  Lemma pv_cref c : slotok c -> (pwf c -> pv (collapse H c) c) -> pv (cref H c (collapse H c)) c.
+  Proof.
+    intros [->|[[v ->]|Hc]] IH; cbn [cref]; [constructor|constructor|].
+    destruct (pwf_enc_total H H_len c Hc) as [e Ee]. rewrite (cref_pwf H c e Hc Ee).
+    destruct (Nat.ltb (length e) 32) eqn:L; [apply IH; exact Hc|].
+    apply pv_hash; auto. apply Nat.ltb_ge in L. exact L.
+  Qed.
+
+  Lemma pwf_full_slot cs i c : pwf (NFull cs) -> nth_error cs i = Some c -> slotok c.
+  Proof.
+    intros Hw Hi. inversion Hw as [| |? L C V]; subst.
+    assert (i < 17)%nat by (rewrite <- L; apply nth_error_Some; congruence).
+    destruct (Nat.eq_dec i 16) as [->|Hne].
+    - destruct (V c Hi) as [->|(v & -> & _)]; [left; reflexivity|right; left; eauto].
+    - destruct (C i c Hi ltac:(lia)) as [->|Hc]; [left; reflexivity|right; right; assumption].
+  Qed.
+
+  Lemma pv_collapse t : pwf t -> pv (collapse H t) t.
+  Proof.
+    induction t as [| |k c IH|cs IH|] using node_ind'; intros Hw; try solve [inversion Hw].
+    - cbn [collapse]. apply pv_short. apply pv_cref; [|exact IH].
+      inversion Hw; subst; [right; left; eauto|right; right; assumption].
+    - cbn [collapse]. apply pv_full; [apply map_length|].
+      intros i c1 c' E1 E'. rewrite nth_error_map, E' in E1. cbn [option_map] in E1. inversion E1; subst c1.
+      apply pv_cref; [eapply pwf_full_slot; eassumption|].
+      rewrite Forall_forall in IH. apply IH. eapply nth_error_In; exact E'.
+  Qed.
+
+  Lemma resolve_pv h t : pv (NHash h) t -> (forall e, genuine H t e -> P e) ->
+    (resolve_node db h = Rerr RMissing /\ exists e, node_enc H t = Some e /\ (32 <= length e)%nat /\ db_get db (H e) = None) \/
+    resolve_node db h = Rok (collapse H t).
+  Proof.
+    intros Hp HP. inversion Hp as [| |t0 e Hw Ee Le| |]; subst. unfold resolve_node.
+    destruct (db_get db (H e)) as [b|] eqn:G.
+    - right. assert (b = e) by (apply faithful; [apply HP; apply genuine_self; exact Ee|exact G]). subst b.
+      rewrite (decode_enc H H_len t e Hw Ee). reflexivity.
+    - left. split; [reflexivity|]. exists e. auto.
+  Qed.
+
+  (* the path of [key] in [n] runs through resolved nodes only, until it ends *)
+  Fixpoint res_along (n : node) (key : list N) {struct n} : Prop :=
+    match n with
+    | NHash _ => False
+    | NShort nk c => if is_prefix_of nk key then res_along c (skipn (length nk) key) else True
+    | NFull cs =>
+        match key with
+        | [] => True
+        | k0 :: kr =>
+            (fix go (l : list node) (i : nat) {struct l} : Prop :=
+               match l with
+               | [] => True
+               | c :: l' => match i with O => res_along c kr | S i' => go l' i' end
+               end) cs (N.to_nat k0)
+        end
+    | _ => True
+    end.
+
+  Lemma res_along_full cs k0 kr :
+    res_along (NFull cs) (k0 :: kr) =
+    match nth_error cs (N.to_nat k0) with Some c => res_along c kr | None => True end.
+  Proof.
+    cbn [res_along]. generalize (N.to_nat k0). induction cs as [|c cs IH]; intros [|i]; simpl; auto.
+  Qed.
+
+  (* the part of proofToPath's loop body after get *)
+  Definition ptp_step (f : nat) (allow : bool) (parent : node) (key keyrest : list N) (cld : node)
+    : rr (node * option (list N)) :=
+    match cld with
+    | NEmpty => if allow then Rok (parent, None) else Rerr RNotContained
+    | NShort _ _ | NFull _ =>
+        match ptp f db allow cld keyrest with
+        | Rerr e => Rerr e
+        | Rok (c', v) =>
+            match ptp_link parent key c' with
+            | Some p' => Rok (p', v)
+            | None => Rerr RPanic
+            end
+        end
+    | NHash h =>
+        match resolve_node db h with
+        | Rerr e => Rerr e
+        | Rok c =>
+            match ptp_link parent key c with
+            | None => Rerr RPanic
+            | Some _ =>
+                match ptp f db allow c keyrest with
+                | Rerr e => Rerr e
+                | Rok (c', v) =>
+                    match ptp_link parent key c' with
+                    | Some p' => Rok (p', v)
+                    | None => Rerr RPanic
+                    end
+                end
+            end
+        end
+    | NValue v =>
+        match ptp_link parent key cld with
+        | None => Rerr RPanic
+        | Some p' => match v with [] => Rerr RPanic | _ :: _ => Rok (p', Some v) end
+        end
+    end.
+
+  Lemma ptp_S f allow parent key :
+    ptp (S f) db allow parent key =
+    match ptp_get parent key with
+    | None => Rerr RPanic
+    | Some (keyrest, cld) => ptp_step f allow parent key keyrest cld
+    end.
+  Proof. reflexivity. Qed.
+
+  Definition ptp_post (allow : bool) (t : node) (key : list N) (r : rr (node * option (list N))) : Prop :=
+    match r with
+    | Rok (p', v) => pv p' t /\ inner_shape p' /\ v = lk t key /\ res_along p' key /\ (allow = false -> v <> None)
+    | Rerr e => (e = RMissing /\ missing_on H db t key) \/ (e = RNotContained /\ allow = false /\ lk t key = None)
+    end.
+
+  Definition ptp_ok (f : nat) : Prop :=
+    forall p t key allow, pv p t -> pwf t -> inner_shape p -> valid_key key -> (length key < f)%nat ->
+      (forall e, genuine H t e -> P e) -> ptp_post allow t key (ptp f db allow p key).
+
+  (* one child slot [c'] of [t], reached with [keyrest] still to go *)
+  Lemma ptp_step_spec f allow parent t key keyrest cld c' :
+    ptp_ok f ->
+    pv parent t -> inner_shape parent -> pv cld c' ->
+    (cld = NEmpty -> res_along parent key) ->
+    (forall c2, pv c2 c' -> (c2 = cld \/ inner_shape c2) -> exists p', ptp_link parent key c2 = Some p' /\ pv p' t /\ inner_shape p' /\
+        (res_along c2 keyrest -> res_along p' key)) ->
+    lk t key = lk c' keyrest ->
+    (missing_on H db c' keyrest -> missing_on H db t key) ->
+    (c' = NEmpty \/ (exists v, c' = NValue v /\ keyrest = [] /\ val_ok v) \/
+     (pwf c' /\ valid_key keyrest /\ (length keyrest < f)%nat)) ->
+    (forall e, genuine H c' e -> P e) ->
+    ptp_post allow t key (ptp_step f allow parent key keyrest cld).
+  Proof.
+    intros IH Hpar Hin Hpv Hres Hlink Hlk Hmiss Hslot HP.
+    assert (Hrec : forall c, pv c c' -> inner_shape c -> pwf c' -> valid_key keyrest -> (length keyrest < f)%nat ->
+              ptp_post allow t key
+                (match ptp f db allow c keyrest with
+                 | Rerr e => Rerr e
+                 | Rok (c2, v) => match ptp_link parent key c2 with Some p' => Rok (p', v) | None => Rerr RPanic end
+                 end)).
+    { intros c Hc Hic Hw Hk Hf. pose proof (IH c c' keyrest allow Hc Hw Hic Hk Hf HP) as Q.
+      destruct (ptp f db allow c keyrest) as [[c2 v]|e]; cbn [ptp_post] in Q |- *.
+      - destruct Q as (Q1 & Q2 & Q3 & Q4 & Q5).
+        destruct (Hlink c2 Q1 (or_intror Q2)) as (p' & -> & L1 & L2 & L3). cbn [ptp_post].
+        split; [exact L1|]. split; [exact L2|]. split; [congruence|]. split; [auto|exact Q5].
+      - destruct Q as [[-> M]|(-> & A & L)]; [left; auto|right]. split; [reflexivity|]. split; [exact A|congruence]. }
+    destruct Hslot as [->|[(v & -> & -> & Hv)|(Hw & Hk & Hf)]].
+    - (* nil *)
+      inversion Hpv as [| |t0 e0 Hw0| |]; subst; [|inversion Hw0]. cbn [ptp_step]. rewrite lk_empty in Hlk. destruct allow; cbn [ptp_post].
+      + split; [exact Hpar|]. split; [exact Hin|]. split; [congruence|]. split; [auto|discriminate].
+      + right. auto.
+    - (* the value *)
+      inversion Hpv as [| |t0 e0 Hw0| |]; subst; [|inversion Hw0]. cbn [ptp_step].
+      destruct (Hlink (NValue v) (pv_value v) (or_introl eq_refl)) as (p' & -> & L1 & L2 & L3).
+      destruct Hv as [Hne _]. destruct v as [|b v]; [congruence|]. cbn [ptp_post].
+      split; [exact L1|]. split; [exact L2|]. rewrite lk_value in Hlk. split; [congruence|].
+      split; [apply L3; exact I|]. intros _. discriminate.
+    - (* a node *)
+      destruct (pwf_shape c' Hw) as [(k & x & ->)|(cs & ->)].
+      + inversion Hpv as [| |t0 e Hw0 Ee Le|k0 c0 x0 Hc0|]; subst.
+        * (* hashed *)
+          cbn [ptp_step].
+          destruct (resolve_pv _ _ Hpv HP) as [[-> (e' & Ee' & Le' & G)] | ->].
+          { cbn [ptp_post]. left. split; [reflexivity|]. apply Hmiss.
+            exists (NShort k x), e'. split; [apply path_nodes_head; [exact Hw|destruct keyrest; [destruct Hk|discriminate]]|auto]. }
+          destruct (Hlink _ (pv_collapse _ Hw) (or_intror (collapse_shape H _ Hw))) as (p0 & -> & _).
+          apply Hrec; auto. apply pv_collapse; exact Hw. apply (collapse_shape H _ Hw).
+        * cbn [ptp_step]. apply (Hrec (NShort k c0)); auto. exact I.
+      + inversion Hpv as [| |t0 e Hw0 Ee Le| |cs0 cs1 Hl Hcs]; subst.
+        * cbn [ptp_step].
+          destruct (resolve_pv _ _ Hpv HP) as [[-> (e' & Ee' & Le' & G)] | ->].
+          { cbn [ptp_post]. left. split; [reflexivity|]. apply Hmiss.
+            exists (NFull cs), e'. split; [apply path_nodes_head; [exact Hw|destruct keyrest; [destruct Hk|discriminate]]|auto]. }
+          destruct (Hlink _ (pv_collapse _ Hw) (or_intror (collapse_shape H _ Hw))) as (p0 & -> & _).
+          apply Hrec; auto. apply pv_collapse; exact Hw. apply (collapse_shape H _ Hw).
+        * cbn [ptp_step]. apply (Hrec (NFull cs0)); auto. exact I.
+  Qed.
+
+  Lemma ptp_spec : forall f, ptp_ok f.
+  Proof.
+    induction f as [|f IH]; intros p t key allow Hpv Hw Hin Hk Hf HP; [lia|].
+    rewrite ptp_S. destruct p as [| |k p|cs|]; try destruct Hin.
+    - (* short node *)
+      inversion Hpv as [| | |k0 c0 c' Hc|]; subst.
+      cbn [ptp_get]. pose proof (is_prefix_strip k key) as Sp. destruct (strip k key) as [r|] eqn:E.
+      + destruct Sp as [S1 S2]. rewrite S1, S2. cbn [negb].
+        assert (Hkey : key = k ++ r) by (apply strip_some; exact E).
+        apply ptp_step_spec with (c' := c'); auto.
+        * exact I.
+        * intros ->. cbn [res_along]. rewrite S1. exact I.
+        * intros c2 Hc2 _. exists (NShort k c2). split; [reflexivity|]. split; [apply pv_short; exact Hc2|].
+          split; [exact I|]. intros R. cbn [res_along]. rewrite S1, S2. exact R.
+        * rewrite lk_short, E. reflexivity.
+        * apply missing_short; [exact E|]. intros ->. destruct Hk.
+        * subst key. inversion Hw as [? v Vk Sk Hv|? ? Nk Ne Sk Hc'|]; subst.
+          -- right; left. exists v. split; [reflexivity|]. split; [|exact Hv].
+             eapply valid_key_prefix_end; eassumption.
+          -- right; right. split; [exact Hc'|].
+             assert (r <> []).
+             { intros ->. rewrite app_nil_r in Hk. eapply valid_key_not_nibbles; eassumption. }
+             destruct (valid_key_app_inv _ _ Hk ltac:(assumption)) as [_ Vr]. split; [exact Vr|].
+             rewrite app_length in Hf. destruct k; [congruence|]. simpl in Hf. lia.
+        * intros e Ge. apply HP. apply genuine_short. exact Ge.
+      + rewrite Sp. cbn [negb ptp_step].
+        assert (L : lk (NShort k c') key = None) by (rewrite lk_short, E; reflexivity).
+        destruct allow; cbn [ptp_post].
+        * split; [exact Hpv|]. split; [exact I|]. split; [congruence|]. split; [|discriminate].
+          cbn [res_along]. rewrite Sp. exact I.
+        * right. auto.
+    - (* full node *)
+      inversion Hpv as [| | | |cs0 cs' Hl Hcs]; subst.
+      destruct key as [|k0 kr]; [destruct Hk|].
+      assert (L17 : length cs' = 17%nat) by (inversion Hw; assumption).
+      pose proof (valid_key_hd_le _ _ Hk) as Hk0.
+      assert (Hi : (N.to_nat k0 < 17)%nat) by lia.
+      destruct (nth_error cs (N.to_nat k0)) as [c|] eqn:Ec; [|apply nth_error_None in Ec; lia].
+      destruct (nth_error cs' (N.to_nat k0)) as [c'|] eqn:Ec'; [|apply nth_error_None in Ec'; lia].
+      cbn [ptp_get]. unfold child. rewrite Ec.
+      apply ptp_step_spec with (c' := c'); auto.
+      + exact I.
+      + eapply Hcs; eassumption.
+      + intros ->. rewrite res_along_full, Ec. exact I.
+      + intros c2 Hc2 _. cbn [ptp_link]. unfold set_child.
+        destruct (set_nth_some (N.to_nat k0) c2 cs ltac:(lia)) as [cs2 E2]. rewrite E2.
+        destruct (set_nth_spec _ _ _ _ E2) as [L2 N2].
+        exists (NFull cs2). split; [reflexivity|]. split.
+        { apply pv_full; [lia|]. intros i x x' Ex Ex'. rewrite N2 in Ex.
+          destruct (Nat.eqb i (N.to_nat k0)) eqn:B.
+          - apply Nat.eqb_eq in B. subst i. inversion Ex; subst x. rewrite Ec' in Ex'. inversion Ex'; subst x'. exact Hc2.
+          - eapply Hcs; eassumption. }
+        split; [exact I|]. intros R. rewrite res_along_full, N2, Nat.eqb_refl. exact R.
+      + rewrite lk_full, Ec'. reflexivity.
+      + apply missing_full. exact Ec'.
+      + apply valid_key_cons in Hk. inversion Hw as [| |? _ C V]; subst.
+        destruct Hk as [[-> ->]|[Hlt Vr]].
+        * change (N.to_nat 16) with 16%nat in Ec'. destruct (V c' Ec') as [->|(v & -> & Hv)]; [left; reflexivity|].
+          right; left. exists v. auto.
+        * destruct (C _ c' Ec' ltac:(lia)) as [->|Hc']; [left; reflexivity|]. right; right.
+          split; [exact Hc'|]. split; [exact Vr|]. simpl in Hf. lia.
+      + intros e Ge. apply HP. eapply genuine_full; eassumption.
+  Qed.
+End Paths.
+
+(* ------------------------------------------------------------------ hasRightElement *)
+
+Lemma slice_lt_nil_r a : slice_lt a [] = false.
+Proof. destruct a; reflexivity. Qed.
+
+Lemma slice_lt_mismatch nk : forall key r, strip nk key = None -> (length nk <= length key)%nat ->
+  slice_lt key (nk ++ r) = slice_lt key nk.
+Proof.
+  induction nk as [|x nk IH]; intros key r Hs Hl; [discriminate|].
+  destruct key as [|y key]; [simpl in Hl; lia|]. simpl in Hs. cbn [app slice_lt].
+  destruct (N.eqb_spec x y) as [->|Ne].
+  - rewrite N.ltb_irrefl, N.eqb_refl. apply IH; [exact Hs|simpl in Hl; lia].
+  - destruct (y <? x); [reflexivity|]. destruct (N.eqb_spec y x); [congruence|reflexivity].
+Qed.
+
+Lemma slice_lt_total a : forall b, a <> b -> slice_lt a b = false -> slice_lt b a = true.
+Proof.
+  induction a as [|x a IH]; intros [|y b] Hne Hlt; try reflexivity; try congruence; try discriminate.
+  simpl in Hlt |- *. destruct (x <? y) eqn:L1; [discriminate|].
+  destruct (N.eqb_spec x y) as [->|Ne].
+  - rewrite N.ltb_irrefl, N.eqb_refl. apply IH; [congruence|exact Hlt].
+  - assert (y <? x = true) by lia. rewrite H. reflexivity.
+Qed.
+
+Lemma any_from_spec cs : forall i lo hi,
+  any_from i lo hi cs = true <->
+  exists j c, nth_error cs j = Some c /\ (lo <= i + j < hi)%nat /\ c <> NEmpty.
+Proof.
+  induction cs as [|c cs IH]; intros i lo hi.
+  - simpl. split; [discriminate|]. intros (j & x & E & _). destruct j; discriminate.
+  - cbn [any_from]. rewrite orb_true_iff, IH. split.
+    + intros [A|(j & x & E & R & Ne)].
+      * exists 0%nat, c. apply andb_true_iff in A. destruct A as [A1 A2]. apply andb_true_iff in A1.
+        split; [reflexivity|]. split; [lia|]. intros ->. discriminate.
+      * exists (S j), x. split; [exact E|]. split; [lia|exact Ne].
+    + intros (j & x & E & R & Ne). destruct j as [|j].
+      * left. simpl in E. inversion E; subst x. destruct c; try congruence;
+          (apply andb_true_iff; split; [apply andb_true_iff; split; [apply Nat.leb_le|apply Nat.ltb_lt]; lia|reflexivity]).
+      * right. exists j, x. split; [exact E|]. split; [lia|exact Ne].
+Qed.
+
+Definition slotcan (t : node) : Prop := t = NEmpty \/ (exists v, t = NValue v) \/ can t.
+(* every key stored under [t] has length L *)
+Definition ulen (t : node) (L : nat) : Prop := forall k v, lk t k = Some v -> length k = L.
+(* an entry strictly to the right of [key] (hex keys, bytes.Compare order) *)
+Definition has_gt (t : node) (key : list N) : Prop := exists k v, lk t k = Some v /\ slice_lt key k = true.
+
+Section HasRight.
+  Variable H : list N -> list N.
+  Hypothesis H_len : forall x, length (H x) = 32%nat.
+
+  Lemma pv_empty_r p : pv H p NEmpty -> p = NEmpty.
+  Proof. intros Hp. inversion Hp as [| |t e Hw| |]; subst; [reflexivity|inversion Hw]. Qed.
+  Lemma pv_value_r p v : pv H p (NValue v) -> p = NValue v.
+  Proof. intros Hp. inversion Hp as [| |t e Hw| |]; subst; [reflexivity|inversion Hw]. Qed.
+
+  Lemma has_right_full cs k0 kr :
+    has_right (NFull cs) (k0 :: kr) =
+    if any_from 0 (N.to_nat k0 + 1) 16 cs then TOk true
+    else match nth_error cs (N.to_nat k0) with Some c => has_right c kr | None => TErr EPanic end.
+  Proof.
+    cbn [has_right]. destruct (any_from 0 (N.to_nat k0 + 1) 16 cs); [reflexivity|].
+    generalize (N.to_nat k0). induction cs as [|c cs IH]; intros [|i]; simpl; auto.
+  Qed.
+
+  Lemma has_right_spec t : forall p key,
+    slotcan t -> pv H p t -> res_along p key -> ulen t (length key) ->
+    (key = [] \/ valid_key key) ->
+    exists b, has_right p key = TOk b /\ (b = true <-> has_gt t key).
+  Proof.
+    induction t as [|v|nk c' IH|cs' IH|h] using node_ind'; intros p key Hs Hp Hr Hu Hk.
+    - apply pv_empty_r in Hp. subst p. exists false. split; [reflexivity|]. split; [discriminate|].
+      intros (k & v & L & _). rewrite lk_empty in L. discriminate.
+    - apply pv_value_r in Hp. subst p. exists false. split; [reflexivity|]. split; [discriminate|].
+      intros (k & v0 & L & Lt). rewrite lk_value in L. destruct k; [|discriminate].
+      rewrite slice_lt_nil_r in Lt. discriminate.
+    - (* short *)
+      destruct Hs as [?|[[? ?]|Hcan]]; try discriminate.
+      inversion Hp as [| |t0 e Hw Ee Le|k0 c0 x Hc|]; subst; [destruct Hr|].
+      destruct (can_has_key _ Hcan) as (kx & vx & _ & Lx).
+      assert (Hkeys : forall k v, lk (NShort nk c') k = Some v -> exists r, k = nk ++ r /\ lk c' r = Some v).
+      { intros k v L. rewrite lk_short in L. destruct (strip nk k) as [r|] eqn:E; [|discriminate].
+        apply strip_some in E. eauto. }
+      cbn [has_right res_along] in *. pose proof (is_prefix_strip nk key) as Sp.
+      destruct (strip nk key) as [rest|] eqn:E.
+      + destruct Sp as [S1 S2]. rewrite S1 in *. rewrite S2 in *. cbn [negb].
+        apply strip_some in E. subst key.
+        assert (Hs' : slotcan c').
+        { destruct (can_short_inv _ _ Hcan) as [[_ [v ->]]|(_ & _ & cs & -> & Hc')]; [right; left; eauto|right; right; exact Hc']. }
+        assert (Hu' : ulen c' (length rest)).
+        { intros r v L. specialize (Hu (nk ++ r) v). rewrite lk_short, strip_app_same in Hu.
+          specialize (Hu L). rewrite !app_length in Hu. lia. }
+        assert (Hk' : rest = [] \/ valid_key rest).
+        { destruct rest as [|a rest]; [left; reflexivity|right]. destruct Hk as [Hk|Hk]; [destruct nk; discriminate|].
+          destruct (can_short_inv _ _ Hcan) as [[Vk _]|(Nk & _)].
+          - apply (valid_key_prefix_end _ _ Vk) in Hk. discriminate.
+          - apply (valid_key_app_inv _ _ Hk). discriminate. }
+        destruct (IH c0 rest Hs' Hc Hr Hu' Hk') as (b & Eb & Hb). exists b. split; [exact Eb|].
+        rewrite Hb. split.
+        * intros (r & v & L & Lt). exists (nk ++ r), v. rewrite lk_short, strip_app_same, slice_lt_app. auto.
+        * intros (k & v & L & Lt). destruct (Hkeys _ _ L) as (r & -> & L'). rewrite slice_lt_app in Lt. exists r, v. auto.
+      + rewrite Sp. cbn [negb]. exists (slice_lt key nk). split; [reflexivity|].
+        assert (Hlen : (length nk <= length key)%nat).
+        { destruct (Hkeys _ _ Lx) as (r & -> & _). rewrite <- (Hu _ _ Lx), app_length. lia. }
+        split.
+        * intros Lt. destruct (Hkeys _ _ Lx) as (r & -> & _). exists (nk ++ r), vx. split; [exact Lx|].
+          rewrite slice_lt_mismatch; assumption.
+        * intros (k & v & L & Lt). destruct (Hkeys _ _ L) as (r & -> & _).
+          rewrite slice_lt_mismatch in Lt; assumption.
+    - (* branch *)
+      destruct Hs as [?|[[? ?]|Hcan]]; try discriminate.
+      inversion Hp as [| |t0 e Hw Ee Le| |cs0 cs1 Hl Hcs]; subst; [destruct Hr|].
+      destruct (can_full_inv _ Hcan) as (L17 & Hch & Hv16 & _).
+      destruct (can_has_key _ Hcan) as (kx & vx & Vkx & Lx).
+      destruct key as [|k0 kr].
+      { specialize (Hu _ _ Lx). destruct kx; [destruct Vkx|discriminate]. }
+      destruct Hk as [?|Hk]; [discriminate|].
+      pose proof (valid_key_hd_le _ _ Hk) as Hk0.
+      rewrite has_right_full. rewrite res_along_full in Hr.
+      destruct (any_from 0 (N.to_nat k0 + 1) 16 cs0) eqn:A.
+      + exists true. split; [reflexivity|]. split; [|reflexivity]. intros _.
+        apply any_from_spec in A. destruct A as (j & c & Ej & Rj & Nej).
+        destruct (nth_error cs' j) as [cj|] eqn:Ej'.
+        2: { apply nth_error_None in Ej'. assert (j < length cs0)%nat by (apply nth_error_Some; congruence). lia. }
+        pose proof (Hcs _ _ _ Ej Ej') as Hpj.
+        destruct (Hch j cj Ej' ltac:(lia)) as [->|Hcj]; [apply pv_empty_r in Hpj; congruence|].
+        destruct (can_has_key _ Hcj) as (r & v & _ & Lr).
+        exists (N.of_nat j :: r), v. split; [rewrite lk_full, Nat2N.id, Ej'; exact Lr|].
+        cbn [slice_lt]. assert (k0 <? N.of_nat j = true) by lia. rewrite H0. reflexivity.
+      + assert (Hi : (N.to_nat k0 < 17)%nat) by lia.
+        destruct (nth_error cs0 (N.to_nat k0)) as [c|] eqn:Ec; [|apply nth_error_None in Ec; lia].
+        destruct (nth_error cs' (N.to_nat k0)) as [c'|] eqn:Ec'; [|apply nth_error_None in Ec'; lia].
+        apply valid_key_cons in Hk.
+        assert (Hs' : slotcan c').
+        { destruct Hk as [[-> ->]|[Hlt _]].
+          - change (N.to_nat 16) with 16%nat in Ec'. destruct (Hv16 _ Ec') as [->|[v ->]]; [left; reflexivity|right; left; eauto].
+          - destruct (Hch _ _ Ec' ltac:(lia)) as [->|Hc']; [left; reflexivity|right; right; exact Hc']. }
+        assert (Hu' : ulen c' (length kr)).
+        { intros r v L. specialize (Hu (k0 :: r) v). rewrite lk_full, Ec' in Hu. specialize (Hu L). simpl in Hu. lia. }
+        assert (Hk' : kr = [] \/ valid_key kr) by (destruct Hk as [[_ ->]|[_ Vr]]; auto).
+        rewrite Forall_forall in IH.
+        destruct (IH c' (nth_error_In _ _ Ec') c kr Hs' (Hcs _ _ _ Ec Ec') Hr Hu' Hk') as (b & Eb & Hb).
+        exists b. split; [exact Eb|]. rewrite Hb. split.
+        * intros (r & v & L & Lt). exists (k0 :: r), v. rewrite lk_full, Ec'. split; [exact L|].
+          cbn [slice_lt]. rewrite N.ltb_irrefl, N.eqb_refl. exact Lt.
+        * intros (k & v & L & Lt). destruct k as [|j r]; [rewrite lk_full_nil in L; discriminate|].
+          rewrite lk_full in L. destruct (nth_error cs' (N.to_nat j)) as [cj|] eqn:Ej'; [|discriminate].
+          cbn [slice_lt] in Lt. destruct (k0 <? j) eqn:Lj.
+          -- exfalso. assert (Hj17 : (N.to_nat j < 17)%nat) by (rewrite <- L17; apply nth_error_Some; congruence).
+             destruct (Nat.eq_dec (N.to_nat j) 16) as [E16|Ne16].
+             ++ rewrite E16 in Ej'. destruct (Hv16 _ Ej') as [->|[v0 ->]]; [rewrite lk_empty in L; discriminate|].
+                rewrite lk_value in L. destruct r; [|discriminate].
+                assert (Hl1 : length [j] = length (k0 :: kr)).
+                { apply (Hu [j] v). rewrite lk_full, E16, Ej', lk_value. exact L. }
+                destruct kr; [|discriminate]. destruct Hk as [[-> _]|[_ []]]. lia.
+             ++ destruct (nth_error cs0 (N.to_nat j)) as [pj|] eqn:Ej; [|apply nth_error_None in Ej; lia].
+                assert (any_from 0 (N.to_nat k0 + 1) 16 cs0 = true); [|congruence].
+                apply any_from_spec. exists (N.to_nat j), pj. split; [exact Ej|]. split; [lia|].
+                intros ->. pose proof (Hcs _ _ _ Ej Ej') as Hpj. inversion Hpj; subst. rewrite lk_empty in L. discriminate.
+          -- destruct (N.eqb_spec k0 j) as [<-|]; [|discriminate]. rewrite Ec' in Ej'. inversion Ej'; subst cj.
+             exists r, v. auto.
+    - destruct Hs as [?|[[? ?]|Hcan]]; try discriminate. inversion Hcan.
+  Qed.
+End HasRight.
+
+(* ------------------------------------------------------------------ byte keys of one length *)
+
+Lemma slice_lt_hex a : forall b, forallb byteb a = true -> forallb byteb b = true -> length a = length b ->
+  slice_lt (keybytes_to_hex a) (keybytes_to_hex b) = slice_lt a b.
+Proof.
+  unfold keybytes_to_hex.
+  induction a as [|x a IH]; intros [|y b] Ha Hb Hl; try discriminate; [reflexivity|].
+  simpl in Ha, Hb. apply andb_true_iff in Ha. apply andb_true_iff in Hb.
+  destruct Ha as [Hx Ha]. destruct Hb as [Hy Hb]. unfold byteb in Hx, Hy.
+  cbn [nibbles_of app slice_lt]. rewrite (IH b Ha Hb ltac:(simpl in Hl; lia)).
+  destruct (x <? y) eqn:L.
+  - destruct (x / 16 <? y / 16) eqn:L1; [reflexivity|].
+    destruct (x / 16 =? y / 16) eqn:E1; [|lia].
+    destruct (x mod 16 <? y mod 16) eqn:L2; [reflexivity|]. lia.
+  - destruct (x =? y) eqn:E.
+    + apply N.eqb_eq in E. subst y. rewrite !N.ltb_irrefl, !N.eqb_refl. reflexivity.
+    + destruct (x / 16 <? y / 16) eqn:L1; [lia|].
+      destruct (x / 16 =? y / 16) eqn:E1; [|reflexivity].
+      destruct (x mod 16 <? y mod 16) eqn:L2; [lia|].
+      destruct (x mod 16 =? y mod 16) eqn:E2; [lia|reflexivity].
+Qed.
+
+(* every key stored in [t] is the hex form of a byte key of length Lb *)
+Definition keys_fixed (t : node) (Lb : nat) : Prop :=
+  forall hk v, lk t hk = Some v ->
+    exists k, hk = keybytes_to_hex k /\ length k = Lb /\ forallb byteb k = true.
+
+Lemma hex_length k : length (keybytes_to_hex k) = (2 * length k + 1)%nat.
+Proof. unfold keybytes_to_hex. rewrite app_length, nibbles_of_length. simpl. lia. Qed.
+
+Lemma keys_fixed_ulen t Lb : keys_fixed t Lb -> ulen t (2 * Lb + 1).
+Proof. intros Hf k v L. destruct (Hf k v L) as (b & -> & Hl & _). rewrite hex_length, Hl. reflexivity. Qed.
+
+(* ------------------------------------------------------------------ the empty-run and single-element branches *)
+
+Lemma ptp_fuel_ok k (db : pdb) : (length k < ptp_fuel k db)%nat.
+Proof. unfold ptp_fuel. nia. Qed.
+
+Section Edge.
+  Variable H : list N -> list N.
+  Hypothesis H_len : forall x, length (H x) = 32%nat.
+  Variable db : pdb.
+  Variable P : list N -> Prop.
+  Hypothesis faithful : forall e b, P e -> db_get db (H e) = Some b -> b = e.
+
+  Variable t : node.
+  Variable r : list N.
+  Hypothesis Hcan : can t.
+  Hypothesis Hok : content_ok t.
+  Hypothesis Hroot : hash_root H t = Some r.
+  Hypothesis HP : forall e, genuine H t e -> P e.
+
+  (* proofToPath from the root hash *)
+  Lemma ptp_root key allow : forallb byteb key = true ->
+    (db_get db r = None /\ proof_to_path db r None key allow = Rerr RMissing) \/
+    (db_get db r <> None /\
+     ptp_post H db allow t (keybytes_to_hex key) (proof_to_path db r None key allow)).
+  Proof.
+    intros Hb. pose proof (can_pwf t Hcan Hok) as Hw.
+    destruct (pwf_enc_total H H_len t Hw) as [e Ee].
+    rewrite (pwf_hash_root H t e Hw Ee) in Hroot. inversion Hroot; subst r.
+    unfold proof_to_path, resolve_node.
+    destruct (db_get db (H e)) as [b|] eqn:G; [right|left; auto].
+    split; [discriminate|].
+    assert (b = e) by (apply faithful; [apply HP; apply genuine_self; exact Ee|exact G]). subst b.
+    rewrite (decode_enc H H_len t e Hw Ee). cbv zeta.
+    apply (ptp_spec H H_len db P faithful); auto.
+    - apply pv_collapse; assumption.
+    - apply collapse_shape; assumption.
+    - apply keybytes_to_hex_valid; exact Hb.
+    - apply ptp_fuel_ok.
+  Qed.
+
+  (* no entry of the trie at or after hex key [hk] *)
+  Definition none_from (hk : list N) : Prop := forall k v, lk t k = Some v -> slice_lt k hk = true.
+
+  Lemma none_from_iff hk : none_from hk <-> lk t hk = None /\ ~ has_gt t hk.
+  Proof.
+    split.
+    - intros Hn. split.
+      + destruct (lk t hk) as [v|] eqn:L; [|reflexivity]. specialize (Hn _ _ L). rewrite slice_lt_irrefl in Hn. discriminate.
+      + intros (k & v & L & Lt). specialize (Hn _ _ L).
+        destruct (list_eq_dec N.eq_dec k hk) as [->|Ne]; [rewrite slice_lt_irrefl in Lt; discriminate|].
+        (* asymmetry *)
+        assert (A : forall a b, slice_lt a b = true -> slice_lt b a = false).
+        { induction a as [|x a IHa]; intros [|y b] E; try discriminate; [reflexivity|]. simpl in E |- *.
+          destruct (x <? y) eqn:L1.
+          - assert (y <? x = false) by lia. rewrite H0. destruct (N.eqb_spec y x); [lia|reflexivity].
+          - destruct (N.eqb_spec x y) as [->|]; [|discriminate]. rewrite N.ltb_irrefl, N.eqb_refl. apply IHa. exact E. }
+        rewrite (A _ _ Hn) in Lt. discriminate.
+    - intros [Hl Hg] k v L.
+      destruct (slice_lt k hk) eqn:Lt; [reflexivity|]. exfalso.
+      destruct (list_eq_dec N.eq_dec k hk) as [->|Ne]; [congruence|].
+      apply Hg. exists k, v. split; [exact L|]. apply slice_lt_total; [congruence|exact Lt].
+  Qed.
+
+  Section WithKey.
+    Variable first : list N.
+    Hypothesis Hfirst : forallb byteb first = true.
+    Hypothesis Hulen : ulen t (length (keybytes_to_hex first)).
+    Let hk := keybytes_to_hex first.
+
+    (* the zero-element branch *)
+    Theorem range_empty_sound b :
+      verify_range_proof H r first [] [] (Some db) = Rok b -> b = false /\ none_from hk.
+    Proof.
+      unfold verify_range_proof. cbn [length Nat.eqb negb check_run].
+      destruct (ptp_root first true Hfirst) as [[_ ->]|[_ Q]]; [discriminate|].
+      destruct (proof_to_path db r None first true) as [[root val]|e]; [|discriminate].
+      cbn [ptp_post] in Q. destruct Q as (Q1 & Q2 & Q3 & Q4 & _).
+      destruct val as [v|]; [discriminate|].
+      destruct (has_right_spec H H_len t root hk (or_intror (or_intror Hcan)) Q1 Q4 Hulen
+                  (or_intror (keybytes_to_hex_valid _ Hfirst))) as (b0 & Eb & Hb).
+      fold hk. rewrite Eb. destruct b0; [discriminate|]. intros E. inversion E; subst b.
+      split; [reflexivity|]. apply none_from_iff. split; [symmetry; exact Q3|].
+      intros G. apply Hb in G. discriminate.
+    Qed.
+
+    Theorem range_empty_complete :
+      none_from hk -> db_get db r <> None -> ~ missing_on H db t hk ->
+      verify_range_proof H r first [] [] (Some db) = Rok false.
+    Proof.
+      intros Hn Hr Hm. apply none_from_iff in Hn. destruct Hn as [Hl Hg].
+      unfold verify_range_proof. cbn [length Nat.eqb negb check_run].
+      destruct (ptp_root first true Hfirst) as [[G _]|[_ Q]]; [congruence|].
+      destruct (proof_to_path db r None first true) as [[root val]|e]; cbn [ptp_post] in Q.
+      - destruct Q as (Q1 & Q2 & Q3 & Q4 & _). fold hk in Q3. rewrite Hl in Q3. subst val.
+        destruct (has_right_spec H H_len t root hk (or_intror (or_intror Hcan)) Q1 Q4 Hulen
+                    (or_intror (keybytes_to_hex_valid _ Hfirst))) as (b0 & Eb & Hb).
+        fold hk. rewrite Eb. destruct b0; [|reflexivity]. exfalso. apply Hg. apply Hb. reflexivity.
+      - exfalso. destruct Q as [[_ M]|(_ & A & _)]; [exact (Hm M)|discriminate].
+    Qed.
+
+    (* the one-element branch (first == last key) *)
+    Theorem range_single_sound v b :
+      verify_range_proof H r first [first] [v] (Some db) = Rok b ->
+      lk t hk = Some v /\ (b = true <-> has_gt t hk).
+    Proof.
+      unfold verify_range_proof. cbn [length Nat.eqb negb check_run].
+      destruct v as [|v0 v]; [discriminate|].
+      rewrite slice_lt_irrefl. cbn [last_opt]. rewrite bytes_eqb_refl. cbn [andb negb].
+      destruct (ptp_root first false Hfirst) as [[_ ->]|[_ Q]]; [discriminate|].
+      destruct (proof_to_path db r None first false) as [[root val]|e]; [|discriminate].
+      cbn [ptp_post] in Q. destruct Q as (Q1 & Q2 & Q3 & Q4 & Q5).
+      destruct val as [w|]; [|exfalso; apply Q5; reflexivity].
+      destruct (bytes_eqb w (v0 :: v)) eqn:B; [|discriminate]. apply bytes_eqb_eq in B. subst w. cbn [negb].
+      destruct (has_right_spec H H_len t root hk (or_intror (or_intror Hcan)) Q1 Q4 Hulen
+                  (or_intror (keybytes_to_hex_valid _ Hfirst))) as (b0 & Eb & Hb).
+      fold hk. rewrite Eb. cbn [of_tres]. intros E. inversion E; subst b0.
+      split; [symmetry; exact Q3|exact Hb].
+    Qed.
+
+    Theorem range_single_complete v :
+      lk t hk = Some v -> db_get db r <> None -> ~ missing_on H db t hk ->
+      exists b, verify_range_proof H r first [first] [v] (Some db) = Rok b /\ (b = true <-> has_gt t hk).
+    Proof.
+      intros Hl Hr Hm.
+      assert (Hv : v <> []) by (destruct (Hok _ _ Hl) as [[Hne _] _]; exact Hne).
+      unfold verify_range_proof. cbn [length Nat.eqb negb check_run].
+      destruct v as [|v0 v]; [congruence|].
+      rewrite slice_lt_irrefl. cbn [last_opt]. rewrite bytes_eqb_refl. cbn [andb negb].
+      destruct (ptp_root first false Hfirst) as [[G _]|[_ Q]]; [congruence|].
+      destruct (proof_to_path db r None first false) as [[root val]|e]; cbn [ptp_post] in Q.
+      - destruct Q as (Q1 & Q2 & Q3 & Q4 & Q5). fold hk in Q3. rewrite Hl in Q3. subst val.
+        rewrite bytes_eqb_refl. cbn [negb].
+        destruct (has_right_spec H H_len t root hk (or_intror (or_intror Hcan)) Q1 Q4 Hulen
+                    (or_intror (keybytes_to_hex_valid _ Hfirst))) as (b0 & Eb & Hb).
+        fold hk. rewrite Eb. exists b0. split; [reflexivity|exact Hb].
+      - exfalso. destruct Q as [[_ M]|(_ & _ & L)]; [exact (Hm M)|]. fold hk in L. congruence.
+    Qed.
+  End WithKey.
+End Edge.
+
+(* ------------------------------------------------------------------ unset / unsetInternal remove the interior *)
+
+Lemma slice_lt_asym a : forall b, slice_lt a b = true -> slice_lt b a = false.
+Proof.
+  induction a as [|x a IHa]; intros [|y b] E; try discriminate; [reflexivity|]. simpl in E |- *.
+  destruct (x <? y) eqn:L1.
+  - assert (y <? x = false) by lia. rewrite H. destruct (N.eqb_spec y x); [lia|reflexivity].
+  - destruct (N.eqb_spec x y) as [->|]; [|discriminate]. rewrite N.ltb_irrefl, N.eqb_refl. apply IHa. exact E.
+Qed.
+
+Lemma slice_lt_cons x a y b :
+  slice_lt (x :: a) (y :: b) = true <-> x < y \/ (x = y /\ slice_lt a b = true).
+Proof.
+  simpl. destruct (x <? y) eqn:L; [split; [left; lia|reflexivity]|].
+  destruct (N.eqb_spec x y) as [->|Ne].
+  - split; [intros E; right; auto|intros [?|[_ E]]; [lia|exact E]].
+  - split; [discriminate|intros [?|[? _]]; [lia|congruence]].
+Qed.
+
+Lemma bcmp_eq a b : bcmp a b = Eq -> a = b.
+Proof.
+  unfold bcmp. destruct (slice_lt a b) eqn:L1; [discriminate|]. destruct (slice_lt b a) eqn:L2; [discriminate|].
+  intros _. destruct (list_eq_dec N.eq_dec a b) as [E|Ne]; [exact E|].
+  rewrite (slice_lt_total a b Ne L1) in L2. discriminate.
+Qed.
+Lemma bcmp_lt a b : bcmp a b = Lt -> slice_lt a b = true.
+Proof. unfold bcmp. destruct (slice_lt a b); [reflexivity|]. destruct (slice_lt b a); discriminate. Qed.
+Lemma bcmp_gt a b : bcmp a b = Gt -> slice_lt b a = true.
+Proof. unfold bcmp. destruct (slice_lt a b); [discriminate|]. destruct (slice_lt b a); [reflexivity|discriminate]. Qed.
+
+Lemma clear_from_nth cs : forall i lo hi j,
+  nth_error (clear_from i lo hi cs) j =
+  match nth_error cs j with
+  | Some c => Some (if Nat.leb lo (i + j) && Nat.ltb (i + j) hi then NEmpty else c)
+  | None => None
+  end.
+Proof.
+  induction cs as [|c cs IH]; intros i lo hi [|j]; simpl; try reflexivity.
+  - rewrite Nat.add_0_r. reflexivity.
+  - rewrite IH. replace (S i + j)%nat with (i + S j)%nat by lia. reflexivity.
+Qed.
+
+Lemma clear_range_nth cs lo hi j :
+  nth_error (clear_range lo hi cs) j =
+  match nth_error cs j with
+  | Some c => Some (if Nat.leb lo j && Nat.ltb j hi then NEmpty else c)
+  | None => None
+  end.
+Proof. unfold clear_range. rewrite clear_from_nth. reflexivity. Qed.
+
+Lemma clear_range_length cs lo hi : length (clear_range lo hi cs) = length cs.
+Proof. unfold clear_range. generalize 0%nat. induction cs as [|c cs IH]; intros i; simpl; [reflexivity|]. rewrite IH. reflexivity. Qed.
+
+(* the node an action leaves in the slot *)
+Definition act_node (a : uact) : node := match a with UKeep n => n | URemove => NEmpty end.
+
+Lemma apply_act_nth cs i a cs' : apply_act cs i a = Some cs' ->
+  length cs' = length cs /\
+  forall j, nth_error cs' j = if Nat.eqb j (N.to_nat i) then Some (act_node a) else nth_error cs j.
+Proof.
+  unfold apply_act, set_child. intros E. destruct (set_nth_spec _ _ _ _ E) as [L Hn].
+  split; [exact L|]. intros j. rewrite Hn. destruct a; reflexivity.
+Qed.
+
+Lemma unset_full cs k0 kr rl :
+  unset (NFull cs) (k0 :: kr) rl =
+  let cs1 := if rl then clear_range 0 (N.to_nat k0) cs else clear_range (N.to_nat k0 + 1) 16 cs in
+  match nth_error cs (N.to_nat k0) with
+  | None => TErr EPanic
+  | Some c =>
+      match unset c kr rl with
+      | TErr e => TErr e
+      | TOk a => match apply_act cs1 k0 a with Some cs2 => TOk (UKeep (NFull cs2)) | None => TErr EPanic end
+      end
+  end.
+Proof.
+  cbn [unset]. cbv zeta.
+  assert (E : (fix go (l : list node) (i : nat) {struct l} : option (tres uact) :=
+                 match l with
+                 | [] => None
+                 | c :: l' => match i with O => Some (unset c kr rl) | S i' => go l' i' end
+                 end) cs (N.to_nat k0) =
+              match nth_error cs (N.to_nat k0) with Some c => Some (unset c kr rl) | None => None end).
+  { generalize (N.to_nat k0). induction cs as [|c cs IH]; intros [|i]; simpl; auto. }
+  rewrite E. destruct (nth_error cs (N.to_nat k0)); [|reflexivity]. destruct (unset n kr rl); reflexivity.
+Qed.
+
+(* which keys one unset pass removes / keeps, relative to the edge key *)
+Definition gone (rl : bool) (key k : list N) : Prop :=
+  k = key \/ (if rl then slice_lt k key = true else slice_lt key k = true).
+Definition stays (rl : bool) (key k : list N) : Prop :=
+  if rl then slice_lt key k = true else slice_lt k key = true.
+
+Lemma unset_spec s : forall key rl a,
+  slotok s -> ulen s (length key) -> (key = [] \/ valid_key key) ->
+  unset s key rl = TOk a ->
+  (forall k, gone rl key k -> lk (act_node a) k = None) /\
+  (forall k, stays rl key k -> lk (act_node a) k = lk s k).
+Proof.
+  induction s as [|v|ck cv IH|cs IH|h] using node_ind'; intros key rl a Hs Hu Hk E.
+  - inversion E; subst. simpl. split; intros; apply lk_empty || reflexivity.
+  - discriminate.
+  - (* short *)
+    destruct Hs as [?|[[? ?]|Hw]]; try discriminate.
+    cbn [unset] in E. pose proof (is_prefix_strip ck key) as Sp.
+    destruct (strip ck key) as [rest|] eqn:Es.
+    + destruct Sp as [S1 S2]. rewrite S1, S2 in E. cbn [negb] in E. apply strip_some in Es. subst key.
+      assert (Hu' : ulen cv (length rest)).
+      { intros r v L. specialize (Hu (ck ++ r) v). rewrite lk_short, strip_app_same in Hu.
+        specialize (Hu L). rewrite !app_length in Hu. lia. }
+      assert (Hlk : forall x k, lk (NShort ck x) k = match strip ck k with Some r => lk x r | None => None end)
+        by (intros; apply lk_short).
+      inversion Hw as [? v Vk Sk Hv|? ? Nk Ne Sk Hc|]; subst.
+      * (* leaf *)
+        inversion E; subst a. cbn [act_node]. split; [intros; apply lk_empty|].
+        intros k St. rewrite lk_empty, lk_leaf. destruct (bytes_eqb k ck) eqn:B; [|reflexivity].
+        apply bytes_eqb_eq in B. subst k. exfalso.
+        assert (rest = []).
+        { specialize (Hu ck v). rewrite lk_leaf, bytes_eqb_refl in Hu. specialize (Hu eq_refl).
+          rewrite app_length in Hu. destruct rest; [reflexivity|simpl in Hu; lia]. }
+        subst rest. rewrite app_nil_r in St. unfold stays in St. destruct rl; rewrite slice_lt_irrefl in St; discriminate.
+      * (* extension *)
+        assert (Hk' : rest = [] \/ valid_key rest).
+        { destruct rest as [|x rest]; [left; reflexivity|right]. destruct Hk as [Hk|Hk]; [destruct ck; discriminate|].
+          apply (valid_key_app_inv _ _ Hk). discriminate. }
+        destruct cv as [| |ck2 cv2|cs2|]; try solve [inversion Hc].
+        -- destruct (unset (NShort ck2 cv2) rest rl) as [[cv'|]|e] eqn:Eu; try discriminate.
+           inversion E; subst a. cbn [act_node].
+           destruct (IH rest rl _ (or_intror (or_intror Hc)) Hu' Hk' Eu) as [G St]. cbn [act_node] in G, St.
+           split; intros k Hg; rewrite !Hlk; destruct (strip ck k) as [r|] eqn:Er; try reflexivity.
+           ++ apply strip_some in Er. subst k. apply G. unfold gone in *.
+              destruct Hg as [Hg|Hg]; [left; apply app_inv_head in Hg; exact Hg|right].
+              destruct rl; rewrite slice_lt_app in Hg; exact Hg.
+           ++ apply strip_some in Er. subst k. apply St. unfold stays in *. destruct rl; rewrite slice_lt_app in Hg; exact Hg.
+        -- destruct (unset (NFull cs2) rest rl) as [[cv'|]|e] eqn:Eu; try discriminate.
+           inversion E; subst a. cbn [act_node].
+           destruct (IH rest rl _ (or_intror (or_intror Hc)) Hu' Hk' Eu) as [G St]. cbn [act_node] in G, St.
+           split; intros k Hg; rewrite !Hlk; destruct (strip ck k) as [r|] eqn:Er; try reflexivity.
+           ++ apply strip_some in Er. subst k. apply G. unfold gone in *.
+              destruct Hg as [Hg|Hg]; [left; apply app_inv_head in Hg; exact Hg|right].
+              destruct rl; rewrite slice_lt_app in Hg; exact Hg.
+           ++ apply strip_some in Er. subst k. apply St. unfold stays in *. destruct rl; rewrite slice_lt_app in Hg; exact Hg.
+    + (* the path leaves the trie at this short node *)
+      rewrite Sp in E. cbn [negb] in E.
+      assert (Hmis : forall k v, lk (NShort ck cv) k = Some v ->
+                k <> key /\ slice_lt key k = slice_lt key ck /\ (slice_lt k key = true <-> slice_lt key ck = false)).
+      { intros k v L. pose proof (Hu _ _ L) as Hl. rewrite lk_short in L.
+        destruct (strip ck k) as [r|] eqn:Er; [|discriminate]. apply strip_some in Er. subst k.
+        assert (Hne : ck ++ r <> key) by (intros <-; rewrite strip_app_same in Es; discriminate).
+        assert (Hm : slice_lt key (ck ++ r) = slice_lt key ck).
+        { apply slice_lt_mismatch; [exact Es|]. rewrite <- Hl, app_length. lia. }
+        split; [exact Hne|]. split; [exact Hm|]. rewrite <- Hm. split.
+        - intros Lt. apply slice_lt_asym. exact Lt.
+        - intros Lt. apply slice_lt_total; [congruence|exact Lt]. }
+      assert (Hcase : forall (b : bool) (a0 : uact),
+                a0 = (if b then URemove else UKeep (NShort ck cv)) ->
+                (b = true -> forall k, stays rl key k -> lk (NShort ck cv) k = None) ->
+                (b = false -> forall k, gone rl key k -> lk (NShort ck cv) k = None) ->
+                (forall k, gone rl key k -> lk (act_node a0) k = None) /\
+                (forall k, stays rl key k -> lk (act_node a0) k = lk (NShort ck cv) k)).
+      { intros b a0 -> H1 H2. destruct b; cbn [act_node].
+        - split; [intros; apply lk_empty|]. intros k St. rewrite lk_empty. symmetry. apply H1; auto.
+        - split; [apply H2; reflexivity|reflexivity]. }
+      destruct rl.
+      * apply (Hcase (slice_lt ck key)); [inversion E; reflexivity| |].
+        -- intros B k St. unfold stays in St. destruct (lk (NShort ck cv) k) as [v|] eqn:L; [|reflexivity].
+           destruct (Hmis _ _ L) as (_ & M & _). rewrite M in St. rewrite (slice_lt_asym _ _ St) in B. discriminate.
+        -- intros B k [->|Hg]; destruct (lk (NShort ck cv) _) as [v|] eqn:L; try reflexivity.
+           ++ destruct (Hmis _ _ L) as (Ne & _). congruence.
+           ++ destruct (Hmis _ _ L) as (Ne & M & M2). apply M2 in Hg.
+              assert (ck <> key) by (intros ->; rewrite strip_self in Es; discriminate).
+              rewrite (slice_lt_total key ck ltac:(congruence) Hg) in B. discriminate.
+      * apply (Hcase (slice_lt key ck)); [inversion E; reflexivity| |].
+        -- intros B k St. unfold stays in St. destruct (lk (NShort ck cv) k) as [v|] eqn:L; [|reflexivity].
+           destruct (Hmis _ _ L) as (_ & _ & M2). apply M2 in St. congruence.
+        -- intros B k [->|Hg]; destruct (lk (NShort ck cv) _) as [v|] eqn:L; try reflexivity.
+           ++ destruct (Hmis _ _ L) as (Ne & _). congruence.
+           ++ destruct (Hmis _ _ L) as (_ & M & _). congruence.
+  - (* branch *)
+    destruct Hs as [?|[[? ?]|Hw]]; try discriminate.
+    destruct key as [|k0 kr]; [discriminate|]. destruct Hk as [?|Hk]; [discriminate|].
+    rewrite unset_full in E. cbv zeta in E.
+    destruct (nth_error cs (N.to_nat k0)) as [c|] eqn:Ec; [|discriminate].
+    destruct (unset c kr rl) as [a0|e] eqn:Eu; [|discriminate].
+    set (cs1 := if rl then clear_range 0 (N.to_nat k0) cs else clear_range (N.to_nat k0 + 1) 16 cs) in E.
+    destruct (apply_act cs1 k0 a0) as [cs2|] eqn:Ea; [|discriminate]. inversion E; subst a. cbn [act_node].
+    destruct (apply_act_nth _ _ _ _ Ea) as [L2 N2].
+    assert (N1 : forall j, nth_error cs1 j = match nth_error cs j with
+              | Some x => Some (if (if rl then Nat.ltb j (N.to_nat k0) else Nat.ltb (N.to_nat k0) j && Nat.ltb j 16) then NEmpty else x)
+              | None => None end).
+    { intros j. unfold cs1. destruct rl; rewrite clear_range_nth; destruct (nth_error cs j); try reflexivity.
+      replace (Nat.leb (N.to_nat k0 + 1) j) with (Nat.ltb (N.to_nat k0) j); [reflexivity|].
+      destruct (Nat.ltb_spec (N.to_nat k0) j); symmetry; [apply Nat.leb_le|apply Nat.leb_gt]; lia. }
+    apply valid_key_cons in Hk.
+    assert (Hs' : slotok c) by (eapply pwf_full_slot; eassumption).
+    assert (Hu' : ulen c (length kr)).
+    { intros r v L. specialize (Hu (k0 :: r) v). rewrite lk_full, Ec in Hu. specialize (Hu L). simpl in Hu. lia. }
+    assert (Hk' : kr = [] \/ valid_key kr) by (destruct Hk as [[_ ->]|[_ Vr]]; auto).
+    rewrite Forall_forall in IH.
+    destruct (IH c (nth_error_In _ _ Ec) kr rl a0 Hs' Hu' Hk' Eu) as [G St].
+    inversion Hw as [| |? L17 Cc V16]; subst.
+    assert (Hslot16 : forall r v x, nth_error cs 16 = Some x -> lk x r = Some v -> r = [] /\ kr = []).
+    { intros r v x Ex L. destruct (V16 x Ex) as [->|(v0 & -> & _)]; [rewrite lk_empty in L; discriminate|].
+      rewrite lk_value in L. destruct r; [|discriminate]. split; [reflexivity|].
+      specialize (Hu [16] v0). rewrite lk_full in Hu. change (N.to_nat 16) with 16%nat in Hu. rewrite Ex, lk_value in Hu.
+      specialize (Hu eq_refl). simpl in Hu. destruct kr; [reflexivity|discriminate]. }
+    split.
+    + intros k Hg. destruct k as [|j r]; [apply lk_full_nil|]. rewrite lk_full, N2.
+      destruct (Nat.eqb (N.to_nat j) (N.to_nat k0)) eqn:B.
+      * apply Nat.eqb_eq in B. assert (j = k0) by lia. subst j. apply G. unfold gone in *.
+        destruct Hg as [Hg|Hg]; [left; congruence|right].
+        destruct rl; apply slice_lt_cons in Hg; destruct Hg as [?|[_ Hg]]; try lia; exact Hg.
+      * apply Nat.eqb_neq in B. rewrite N1. destruct (nth_error cs (N.to_nat j)) as [x|] eqn:Ex; [|reflexivity].
+        unfold gone in Hg. destruct Hg as [Hg|Hg]; [congruence|].
+        destruct rl; apply slice_lt_cons in Hg; destruct Hg as [Hg|[? _]]; try (subst; congruence).
+        -- replace (Nat.ltb (N.to_nat j) (N.to_nat k0)) with true by (symmetry; apply Nat.ltb_lt; lia). apply lk_empty.
+        -- destruct (Nat.ltb_spec (N.to_nat j) 16).
+           ++ replace (Nat.ltb (N.to_nat k0) (N.to_nat j)) with true by (symmetry; apply Nat.ltb_lt; lia). apply lk_empty.
+           ++ replace (Nat.ltb (N.to_nat k0) (N.to_nat j) && false) with false by (rewrite andb_false_r; reflexivity).
+              assert (N.to_nat j < 17)%nat by (rewrite <- L17; apply nth_error_Some; congruence).
+              assert (E16 : N.to_nat j = 16%nat) by lia. rewrite E16 in Ex.
+              destruct (lk x r) as [v|] eqn:L; [|reflexivity]. exfalso.
+              destruct (Hslot16 _ _ _ Ex L) as [_ ->]. destruct Hk as [[-> _]|[_ []]]. lia.
+    + intros k Hst. destruct k as [|j r]; [rewrite !lk_full_nil; reflexivity|]. rewrite !lk_full, N2.
+      destruct (Nat.eqb (N.to_nat j) (N.to_nat k0)) eqn:B.
+      * apply Nat.eqb_eq in B. assert (j = k0) by lia. subst j. rewrite Ec. apply St. unfold stays in *.
+        destruct rl; apply slice_lt_cons in Hst; destruct Hst as [?|[_ Hst]]; try lia; exact Hst.
+      * apply Nat.eqb_neq in B. rewrite N1. destruct (nth_error cs (N.to_nat j)) as [x|] eqn:Ex; [|reflexivity].
+        unfold stays in Hst.
+        destruct rl; apply slice_lt_cons in Hst; destruct Hst as [Hst|[? _]]; try (subst; congruence).
+        -- replace (Nat.ltb (N.to_nat j) (N.to_nat k0)) with false by (symmetry; apply Nat.ltb_ge; lia). reflexivity.
+        -- replace (Nat.ltb (N.to_nat k0) (N.to_nat j)) with false by (symmetry; apply Nat.ltb_ge; lia). reflexivity.
+  - discriminate.
+Qed.
+
+Lemma unset_internal_full cs l0 lr r0 rr0 :
+  unset_internal (NFull cs) (l0 :: lr) (r0 :: rr0) =
+  match child cs l0, child cs r0 with
+  | Some ln, Some rn =>
+      match (if is_empty ln || is_empty rn then Some true else iface_neq l0 r0 ln rn) with
+      | None => Rerr RPanic
+      | Some true => ui_fork cs l0 lr r0 rr0
+      | Some false =>
+          match nth_error cs (N.to_nat l0) with
+          | None => Rerr RPanic
+          | Some c =>
+              match unset_internal c lr rr0 with
+              | Rerr e => Rerr e
+              | Rok a => match apply_act cs l0 a with Some cs' => Rok (UKeep (NFull cs')) | None => Rerr RPanic end
+              end
+          end
+      end
+  | _, _ => Rerr RPanic
+  end.
+Proof.
+  cbn [unset_internal]. cbv zeta.
+  assert (E : (fix go (l : list node) (i : nat) {struct l} : option (rr uact) :=
+                 match l with
+                 | [] => None
+                 | c :: l' => match i with O => Some (unset_internal c lr rr0) | S i' => go l' i' end
+                 end) cs (N.to_nat l0) =
+              match nth_error cs (N.to_nat l0) with Some c => Some (unset_internal c lr rr0) | None => None end).
+  { generalize (N.to_nat l0). induction cs as [|c cs IH]; intros [|i]; simpl; auto. }
+  rewrite E. destruct (child cs l0); [|reflexivity]. destruct (child cs r0); [|reflexivity].
+  destruct (if is_empty n || is_empty n0 then Some true else iface_neq l0 r0 n n0) as [[|]|]; try reflexivity.
+  destruct (nth_error cs (N.to_nat l0)); [|reflexivity]. destruct (unset_internal n1 lr rr0); reflexivity.
+Qed.
+
+Lemma firstn_eq_split (p l : list N) : firstn (length p) l = p -> l = p ++ skipn (length p) l.
+Proof. intros E. rewrite <- E at 1. symmetry. apply firstn_skipn. Qed.
+
+(* the keys of the closed interval [left, right] *)
+Definition between (left right k : list N) : Prop :=
+  (k = left \/ slice_lt left k = true) /\ (k = right \/ slice_lt k right = true).
+
+(* unset_removes_interior: after unsetInternal no key of [left, right] is reachable *)
+Lemma unset_internal_spec s : forall left right a,
+  slotok s -> ulen s (length left) -> length left = length right ->
+  valid_key left -> valid_key right -> slice_lt left right = true ->
+  unset_internal s left right = Rok a ->
+  forall k, between left right k -> lk (act_node a) k = None.
+Proof.
+  induction s as [|v|rk rv IH|cs IH|h] using node_ind'; intros left right a Hs Hu Hlen Vl Vr Hlt E; try discriminate.
+  - (* short *)
+    destruct Hs as [?|[[? ?]|Hw]]; try discriminate.
+    assert (Hlk : forall x k, lk (NShort rk x) k = match strip rk k with Some r => lk x r | None => None end)
+      by (intros; apply lk_short).
+    (* what the two edge passes need *)
+    assert (Hedge : forall key rest rl a0 rv',
+              key = left \/ key = right ->
+              key = rk ++ rest -> unset rv rest rl = TOk a0 -> a0 = UKeep rv' ->
+              (forall k', gone rl rest k' -> lk rv' k' = None)).
+    { intros key rest rl a0 rv' Hkey Esp Eu -> k' Hg.
+      assert (Vk : valid_key key) by (destruct Hkey; subst key; assumption).
+      assert (Lk : length key = length left) by (destruct Hkey; subst key; [reflexivity|symmetry; exact Hlen]).
+      inversion Hw as [? v Vk0 Sk Hv|? ? Nk Ne Sk Hc|]; subst rk rv.
+      - discriminate.
+      - assert (Hrest : rest <> []).
+        { intros Er. rewrite Er, app_nil_r in Esp. rewrite Esp in Vk. eapply valid_key_not_nibbles; eassumption. }
+        rewrite Esp in Vk. destruct (valid_key_app_inv _ _ Vk Hrest) as [_ Vrest].
+        destruct (unset_spec c rest rl (UKeep rv') (or_intror (or_intror Hc))) as [G _]; auto.
+        intros r v L. specialize (Hu (k ++ r) v). rewrite lk_short, strip_app_same in Hu. specialize (Hu L).
+        rewrite <- Lk, Esp, !app_length in Hu. lia. }
+    cbn [unset_internal] in E. cbv zeta in E.
+    destruct (bcmp (firstn (length rk) left) rk) eqn:Fl; destruct (bcmp (firstn (length rk) right) rk) eqn:Fr;
+      try discriminate.
+    + (* both edges go through *)
+      apply bcmp_eq in Fl. apply bcmp_eq in Fr.
+      pose proof (firstn_eq_split _ _ Fl) as El. pose proof (firstn_eq_split _ _ Fr) as Er.
+      set (l' := skipn (length rk) left) in *. set (r' := skipn (length rk) right) in *.
+      destruct (unset_internal rv l' r') as [[rv'|]|e] eqn:Eu; try discriminate. inversion E; subst a. cbn [act_node].
+      intros k [B1 B2]. rewrite Hlk. destruct (strip rk k) as [k'|] eqn:Ek; [|reflexivity].
+      apply strip_some in Ek. subst k.
+      inversion Hw as [? v Vk0 Sk Hv|? ? Nk Ne Sk Hc|]; subst; [discriminate|].
+      assert (Nl : l' <> []).
+      { intros En. rewrite En, app_nil_r in El. rewrite El in Vl. eapply valid_key_not_nibbles; eassumption. }
+      assert (Nr : r' <> []).
+      { intros En. rewrite En, app_nil_r in Er. rewrite Er in Vr. eapply valid_key_not_nibbles; eassumption. }
+      rewrite El in Vl, B1, Hlt, Hlen, Hu. rewrite Er in Vr, B2, Hlt, Hlen.
+      destruct (valid_key_app_inv _ _ Vl Nl) as [_ Vl']. destruct (valid_key_app_inv _ _ Vr Nr) as [_ Vr'].
+      rewrite slice_lt_app in Hlt. rewrite !app_length in Hlen.
+      apply (IH l' r' (UKeep rv') (or_intror (or_intror Hc))); auto.
+      * intros r v L. specialize (Hu (rk ++ r) v). rewrite lk_short, strip_app_same in Hu. specialize (Hu L).
+        rewrite !app_length in Hu. lia.
+      * lia.
+      * split.
+        -- destruct B1 as [B1|B1]; [left; apply app_inv_head in B1; exact B1|right; rewrite slice_lt_app in B1; exact B1].
+        -- destruct B2 as [B2|B2]; [left; apply app_inv_head in B2; exact B2|right; rewrite slice_lt_app in B2; exact B2].
+    + (* Eq, Lt *)
+      apply bcmp_eq in Fl. pose proof (firstn_eq_split _ _ Fl) as El.
+      intros k [B1 _]. destruct rv as [|v|k2 c2|cs2|h2]; try (inversion E; subst a; apply lk_empty).
+      all: match type of E with context [unset ?x ?y false] => destruct (unset x y false) as [[rv'|]|e] eqn:Eu end; try discriminate.
+      all: inversion E; subst a; cbn [act_node]; rewrite Hlk; destruct (strip rk k) as [k'|] eqn:Ek; [|reflexivity].
+      all: apply strip_some in Ek; subst k; apply (Hedge left _ false _ rv' (or_introl eq_refl) El Eu eq_refl).
+      all: unfold gone; rewrite El in B1; destruct B1 as [B1|B1]; [left; apply app_inv_head in B1; exact B1|right; rewrite slice_lt_app in B1; exact B1].
+    + (* Eq, Gt *)
+      apply bcmp_eq in Fl. pose proof (firstn_eq_split _ _ Fl) as El.
+      intros k [B1 _]. destruct rv as [|v|k2 c2|cs2|h2]; try (inversion E; subst a; apply lk_empty).
+      all: match type of E with context [unset ?x ?y false] => destruct (unset x y false) as [[rv'|]|e] eqn:Eu end; try discriminate.
+      all: inversion E; subst a; cbn [act_node]; rewrite Hlk; destruct (strip rk k) as [k'|] eqn:Ek; [|reflexivity].
+      all: apply strip_some in Ek; subst k; apply (Hedge left _ false _ rv' (or_introl eq_refl) El Eu eq_refl).
+      all: unfold gone; rewrite El in B1; destruct B1 as [B1|B1]; [left; apply app_inv_head in B1; exact B1|right; rewrite slice_lt_app in B1; exact B1].
+    + (* Lt, Eq *)
+      apply bcmp_eq in Fr. pose proof (firstn_eq_split _ _ Fr) as Er.
+      intros k [_ B2]. destruct rv as [|v|k2 c2|cs2|h2]; try (inversion E; subst a; apply lk_empty).
+      all: match type of E with context [unset ?x ?y true] => destruct (unset x y true) as [[rv'|]|e] eqn:Eu end; try discriminate.
+      all: inversion E; subst a; cbn [act_node]; rewrite Hlk; destruct (strip rk k) as [k'|] eqn:Ek; [|reflexivity].
+      all: apply strip_some in Ek; subst k; apply (Hedge right _ true _ rv' (or_intror eq_refl) Er Eu eq_refl).
+      all: unfold gone; rewrite Er in B2; destruct B2 as [B2|B2]; [left; apply app_inv_head in B2; exact B2|right; rewrite slice_lt_app in B2; exact B2].
+    + (* Lt, Gt *) inversion E; subst a. intros; apply lk_empty.
+    + (* Gt, Eq *)
+      apply bcmp_eq in Fr. pose proof (firstn_eq_split _ _ Fr) as Er.
+      intros k [_ B2]. destruct rv as [|v|k2 c2|cs2|h2]; try (inversion E; subst a; apply lk_empty).
+      all: match type of E with context [unset ?x ?y true] => destruct (unset x y true) as [[rv'|]|e] eqn:Eu end; try discriminate.
+      all: inversion E; subst a; cbn [act_node]; rewrite Hlk; destruct (strip rk k) as [k'|] eqn:Ek; [|reflexivity].
+      all: apply strip_some in Ek; subst k; apply (Hedge right _ true _ rv' (or_intror eq_refl) Er Eu eq_refl).
+      all: unfold gone; rewrite Er in B2; destruct B2 as [B2|B2]; [left; apply app_inv_head in B2; exact B2|right; rewrite slice_lt_app in B2; exact B2].
+    + (* Gt, Lt *) inversion E; subst a. intros; apply lk_empty.
+  - (* branch *)
+    destruct Hs as [?|[[? ?]|Hw]]; try discriminate.
+    destruct left as [|l0 lr]; [destruct Vl|]. destruct right as [|r0 rr0]; [destruct Vr|].
+    rewrite unset_internal_full in E. unfold child in E.
+    destruct (nth_error cs (N.to_nat l0)) as [ln|] eqn:Eln; [|discriminate].
+    destruct (nth_error cs (N.to_nat r0)) as [rn|] eqn:Ern; [|discriminate].
+    inversion Hw as [| |? L17 Cc V16]; subst.
+    apply slice_lt_cons in Hlt.
+    assert (Hul : forall j c, nth_error cs (N.to_nat j) = Some c -> ulen c (length lr)).
+    { intros j c Ec r v L. specialize (Hu (j :: r) v). rewrite lk_full, Ec in Hu. specialize (Hu L). simpl in Hu. lia. }
+    assert (Hkl : lr = [] \/ valid_key lr) by (apply valid_key_cons in Vl; destruct Vl as [[_ ->]|[_ ?]]; auto).
+    assert (Hkr : rr0 = [] \/ valid_key rr0) by (apply valid_key_cons in Vr; destruct Vr as [[_ ->]|[_ ?]]; auto).
+    assert (Hrange : forall j r, between (l0 :: lr) (r0 :: rr0) (j :: r) -> l0 <= j <= r0).
+    { intros j r [B1 B2]. split.
+      - destruct B1 as [B1|B1]; [inversion B1; lia|]. apply slice_lt_cons in B1. lia.
+      - destruct B2 as [B2|B2]; [inversion B2; lia|]. apply slice_lt_cons in B2. lia. }
+    destruct (if is_empty ln || is_empty rn then Some true else iface_neq l0 r0 ln rn) as [[|]|] eqn:Fk; [| |discriminate].
+    + (* the fork point *)
+      unfold ui_fork in E. cbv zeta in E. unfold child in E.
+      set (cs1 := clear_range (N.to_nat l0 + 1) (N.to_nat r0) cs) in E.
+      assert (N1 : forall j, nth_error cs1 j = match nth_error cs j with
+                | Some x => Some (if Nat.ltb (N.to_nat l0) j && Nat.ltb j (N.to_nat r0) then NEmpty else x)
+                | None => None end).
+      { intros j. unfold cs1. rewrite clear_range_nth. destruct (nth_error cs j); [|reflexivity].
+        replace (Nat.leb (N.to_nat l0 + 1) j) with (Nat.ltb (N.to_nat l0) j); [reflexivity|].
+        destruct (Nat.ltb_spec (N.to_nat l0) j); symmetry; [apply Nat.leb_le|apply Nat.leb_gt]; lia. }
+      rewrite N1, Eln in E. rewrite Nat.ltb_irrefl in E. cbn [andb] in E.
+      destruct (unset ln lr false) as [a1|e] eqn:E1; [|discriminate].
+      destruct (apply_act cs1 l0 a1) as [cs2|] eqn:A1; [|discriminate].
+      destruct (apply_act_nth _ _ _ _ A1) as [_ N2].
+      destruct (nth_error cs2 (N.to_nat r0)) as [c2|] eqn:Ec2; [|discriminate].
+      destruct (unset c2 rr0 true) as [a2|e] eqn:E2; [|discriminate].
+      destruct (apply_act cs2 r0 a2) as [cs3|] eqn:A2; [|discriminate].
+      destruct (apply_act_nth _ _ _ _ A2) as [_ N3].
+      inversion E; subst a. cbn [act_node].
+      destruct (unset_spec ln lr false a1 (pwf_full_slot _ _ _ Hw Eln) (Hul _ _ Eln) Hkl E1) as [G1 _].
+      intros k Hb. destruct k as [|j r]; [apply lk_full_nil|]. pose proof (Hrange _ _ Hb) as Hj. destruct Hb as [B1 B2].
+      rewrite lk_full, N3.
+      destruct (N.eq_dec l0 r0) as [<-|Hne].
+      * (* both edges point to the same (necessarily nil) slot *)
+        rewrite Ern in Eln. inversion Eln; subst rn.
+        assert (ln = NEmpty).
+        { destruct ln; try reflexivity; cbn in Fk; rewrite ?N.eqb_refl in Fk; discriminate. }
+        subst ln. inversion E1; subst a1. rewrite N2, Nat.eqb_refl in Ec2. inversion Ec2; subst c2.
+        inversion E2; subst a2. assert (j = l0) by lia. subst j. rewrite Nat.eqb_refl. apply lk_empty.
+      * assert (Hlt0 : l0 < r0) by lia.
+        destruct (Nat.eqb (N.to_nat j) (N.to_nat r0)) eqn:Br.
+        -- apply Nat.eqb_eq in Br. assert (j = r0) by lia. subst j.
+           rewrite N2 in Ec2. replace (Nat.eqb (N.to_nat r0) (N.to_nat l0)) with false in Ec2 by (symmetry; apply Nat.eqb_neq; lia).
+           rewrite N1, Ern in Ec2. rewrite Nat.ltb_irrefl, andb_false_r in Ec2. inversion Ec2; subst c2.
+           rewrite <- Hlen in *. 
+           destruct (unset_spec rn rr0 true a2 (pwf_full_slot _ _ _ Hw Ern)) as [G2 _]; auto.
+           { intros r' v L. specialize (Hu (r0 :: r') v). rewrite lk_full, Ern in Hu. specialize (Hu L).
+             simpl in Hu, Hlen. lia. }
+           apply G2. unfold gone. destruct B2 as [B2|B2]; [left; congruence|right].
+           apply slice_lt_cons in B2. destruct B2 as [?|[_ B2]]; [lia|exact B2].
+        -- apply Nat.eqb_neq in Br. rewrite N2.
+           destruct (Nat.eqb (N.to_nat j) (N.to_nat l0)) eqn:Bl.
+           ++ apply Nat.eqb_eq in Bl. assert (j = l0) by lia. subst j. apply G1. unfold gone.
+              destruct B1 as [B1|B1]; [left; congruence|right].
+              apply slice_lt_cons in B1. destruct B1 as [?|[_ B1]]; [lia|exact B1].
+           ++ apply Nat.eqb_neq in Bl. rewrite N1. destruct (nth_error cs (N.to_nat j)); [|reflexivity].
+              replace (Nat.ltb (N.to_nat l0) (N.to_nat j) && Nat.ltb (N.to_nat j) (N.to_nat r0)) with true.
+              ** apply lk_empty.
+              ** symmetry. apply andb_true_iff. split; apply Nat.ltb_lt; lia.
+    + (* both edges continue into the same child *)
+      assert (l0 = r0).
+      { destruct (is_empty ln || is_empty rn); [discriminate|].
+        destruct ln, rn; cbn in Fk; try discriminate; inversion Fk as [Fe]; apply negb_false_iff in Fe; apply N.eqb_eq; exact Fe. }
+      subst r0. rewrite Ern in Eln. inversion Eln; subst rn.
+      destruct (unset_internal ln lr rr0) as [a0|e] eqn:Eu; [|discriminate].
+      destruct (apply_act cs l0 a0) as [cs'|] eqn:Aa; [|discriminate]. inversion E; subst a. cbn [act_node].
+      destruct (apply_act_nth _ _ _ _ Aa) as [_ Nn].
+      intros k Hb. destruct k as [|j r]; [apply lk_full_nil|]. pose proof (Hrange _ _ Hb) as Hj.
+      assert (j = l0) by lia. subst j. rewrite lk_full, Nn, Nat.eqb_refl.
+      destruct Hlt as [?|[_ Hlt]]; [lia|]. simpl in Hlen.
+      assert (Hne : ln <> NEmpty /\ (forall v, ln <> NValue v)).
+      { destruct ln; cbn in Fk; try discriminate; split; intros; discriminate. }
+      assert (Vl' : valid_key lr).
+      { destruct Hkl as [->|?]; [|assumption]. destruct rr0; [|discriminate]. discriminate. }
+      assert (Vr' : valid_key rr0).
+      { destruct Hkr as [->|?]; [|assumption]. destruct lr; [destruct Vl'|discriminate]. }
+      rewrite Forall_forall in IH.
+      apply (IH ln (nth_error_In _ _ Ern) lr rr0 a0 (pwf_full_slot _ _ _ Hw Ern) (Hul _ _ Ern)); auto.
+      destruct Hb as [B1 B2]. split.
+      * destruct B1 as [B1|B1]; [left; congruence|right]. apply slice_lt_cons in B1. destruct B1 as [?|[_ B1]]; [lia|exact B1].
+      * destruct B2 as [B2|B2]; [left; congruence|right]. apply slice_lt_cons in B2. destruct B2 as [?|[_ B2]]; [lia|exact B2].
+Qed.
